@@ -17,6 +17,9 @@ import (
 type SV struct {
 	T   *Term
 	Typ types.Type
+	// Pointee: the variable stands for a pointer parameter of a pure function but carries the pointed-to value (application axioms):
+	// "*c" and "c.f" both read this value, no heap is involved.
+	Pointee bool
 }
 
 type Env struct {
@@ -490,7 +493,44 @@ func (x *Exec) choosePatterns(bvs []*Term, body *Term) [][]*Term {
 	return [][]*Term{pat}
 }
 
+// shadowingLocal: "$i" in a loop invariant names the live local i (not the spill slot of a parameter) where a parameter of the
+// same name would otherwise be meant, e.g. "for i, p := range ..." in a method whose receiver is called i.
+func (x *Exec) shadowingLocal(env *Env, name string) *ssa.Alloc {
+	if env.fr == nil {
+		return nil
+	}
+	var best *ssa.Alloc
+	for _, a := range x.info(env.fr.fn).allocsByName[name] {
+		if _, live := env.fr.vals[a]; !live {
+			continue
+		}
+		spill := false
+		for _, r := range *a.Referrers() {
+			if s, ok := r.(*ssa.Store); ok && s.Addr == a {
+				if p, ok := s.Val.(*ssa.Parameter); ok && p.Name() == name {
+					spill = true
+				}
+			}
+		}
+		if spill {
+			continue
+		}
+		if best == nil || env.fr.order[a] > env.fr.order[best] {
+			best = a
+		}
+	}
+	return best
+}
+
 func (x *Exec) evalIdent(env *Env, name string) SV {
+	if strings.HasPrefix(name, "$") {
+		if a := x.shadowingLocal(env, name[1:]); a != nil {
+			if val := env.fr.vals[a]; val.Loc != nil {
+				return SV{T: x.load(env.st, val.Loc), Typ: deref(a.Type())}
+			}
+		}
+		specFail("no live local %q", name[1:])
+	}
 	if v, ok := env.vars[name]; ok {
 		return v
 	}
@@ -504,7 +544,8 @@ func (x *Exec) evalIdent(env *Env, name string) SV {
 	if env.fr != nil {
 		fi := x.info(env.fr.fn)
 		if name == "iter" && env.loop != nil && env.loop.rangeCell != nil {
-			ri, ok := env.state().cells[cellKey{env.fr.id, env.loop.rangeCell}]
+			// (locals and the iteration counter do not exist in the old state: inside old(...) they keep their current value)
+			ri, ok := env.st.cells[cellKey{env.fr.id, env.loop.rangeCell}]
 			if !ok {
 				specFail("iter: range index not available")
 			}
@@ -524,7 +565,7 @@ func (x *Exec) evalIdent(env *Env, name string) SV {
 				if val.Loc == nil {
 					specFail("local %q is not addressable", name)
 				}
-				return SV{T: x.load(env.state(), val.Loc), Typ: deref(best.Type())}
+				return SV{T: x.load(env.st, val.Loc), Typ: deref(best.Type())}
 			}
 		}
 		if name == "iter" && env.loop != nil && env.loop.rangeIdx != nil {
@@ -538,7 +579,7 @@ func (x *Exec) evalIdent(env *Env, name string) SV {
 				if !ok || val.Loc == nil {
 					specFail("local %q is not allocated at this point", name)
 				}
-				return SV{T: x.load(env.state(), val.Loc), Typ: deref(v.Type())}
+				return SV{T: x.load(env.st, val.Loc), Typ: deref(v.Type())}
 			default:
 				if val, ok := env.fr.vals[v]; ok && val.T != nil {
 					return SV{T: val.T, Typ: v.Type()}
@@ -601,6 +642,9 @@ func (x *Exec) constSV(c *types.Const) SV {
 }
 
 func (x *Exec) derefSV(env *Env, v SV) SV {
+	if v.Pointee {
+		return SV{T: v.T, Typ: v.Typ}
+	}
 	if v.Typ == nil {
 		specFail("dereference of a value without Go type")
 	}
@@ -838,11 +882,21 @@ func (x *Exec) evalCall(env *Env, e *ECall) SV {
 		return SV{T: Eq(v.T, IntLit(0))}
 	case "typeis":
 		v := arg(0)
-		id, ok := e.Args[1].(*EIdent)
+		targ := e.Args[1]
+		ptr := ""
+		for {
+			u, isU := targ.(*EUnary)
+			if !isU || u.Op != "*" {
+				break
+			}
+			ptr += "*"
+			targ = u.X
+		}
+		id, ok := targ.(*EIdent)
 		tn := ""
 		if ok {
 			tn = id.Name
-		} else if f, ok := e.Args[1].(*EField); ok {
+		} else if f, ok := targ.(*EField); ok {
 			if q, ok := f.X.(*EIdent); ok {
 				tn = q.Name + "." + f.Name
 			}
@@ -850,7 +904,7 @@ func (x *Exec) evalCall(env *Env, e *ECall) SV {
 		if tn == "" {
 			specFail("typeis needs a type name")
 		}
-		t, _ := x.resolveType(env, TypeExpr{tn})
+		t, _ := x.resolveType(env, TypeExpr{ptr + tn})
 		return SV{T: Eq(x.TI.IfaceTag(v.T), IntLit(int64(x.TI.Tag(t))))}
 	case "abs":
 		return SV{T: App("rabs", SReal, ToReal(arg(0).T))}
@@ -884,6 +938,44 @@ func (x *Exec) evalCall(env *Env, e *ECall) SV {
 		f, a := arg(0), arg(1)
 		x.U.Declare("app_Int_Int", SInt, SInt, SInt)
 		return SV{T: App("app_Int_Int", SInt, f.T, a.T)}
+	case "apply":
+		// apply(f, a1..an): the value the pure function-typed parameter (or contract-carrying function value) f returns for these
+		// arguments; a pointer parameter of f is given as the value it points to.
+		f := arg(0)
+		var sig *types.Signature
+		if f.Typ != nil {
+			sig, _ = types.Unalias(f.Typ).Underlying().(*types.Signature)
+		}
+		if sig == nil || sig.Results().Len() != 1 {
+			specFail("apply: first argument must be a function with one result")
+		}
+		if len(e.Args)-1 != sig.Params().Len() {
+			specFail("apply: %d arguments for a function of %d parameters", len(e.Args)-1, sig.Params().Len())
+		}
+		ats := []*Term{f.T}
+		asorts := []Sort{SInt}
+		rs := x.TI.SortOf(sig.Results().At(0).Type())
+		fname := "app_" + mangleSort(rs)
+		for i := 1; i < len(e.Args); i++ {
+			a := arg(i)
+			pt := sig.Params().At(i - 1).Type()
+			want := x.TI.SortOf(pt)
+			if pp, ok := types.Unalias(pt).Underlying().(*types.Pointer); ok {
+				want = x.TI.SortOf(pp.Elem())
+			}
+			t := a.T
+			if want == SReal && t.Sort == SInt {
+				t = ToReal(t)
+			}
+			if t.Sort != want {
+				specFail("apply: argument %d has sort %s, expected %s (pointer parameters take the pointed-to value)", i, t.Sort, want)
+			}
+			ats = append(ats, t)
+			asorts = append(asorts, t.Sort)
+			fname += "_" + mangleSort(t.Sort)
+		}
+		x.U.Declare(fname, rs, asorts...)
+		return SV{T: App(fname, rs, ats...), Typ: sig.Results().At(0).Type()}
 	case "appptr":
 		// appptr(f, v): the pointer a pure function-typed parameter f returns when called with (a pointer to) the value v
 		f, a := arg(0), arg(1)
@@ -1220,6 +1312,7 @@ func (x *Exec) applySpec(env *Env, sf *SpecFunc, args []SV) SV {
 	}
 	x.U.Declare(si.sym, si.retS, asorts...)
 	app := App(si.sym, si.retS, ats...)
+	x.specFrame(env, si, args, ats, app)
 	force := env.unfoldNext
 	env.unfoldNext = false
 	if sf.Body != nil && ((env.getFuel() > 0 && !sf.Opaque) || force) {
@@ -1242,4 +1335,166 @@ func (x *Exec) applySpec(env *Env, sf *SpecFunc, args []SV) SV {
 		env.side = append(env.side, inst)
 	}
 	return SV{T: app, Typ: si.retT}
+}
+
+
+// entryRooted: the term denotes a value of the entry state - a parameter, something read out of an entry heap component (at any
+// index), or built from such by projections and constructors.  Such a value is well-formed w.r.t. the entry allocation bound
+// (the entry well-formedness assumption), so everything reachable from it in the entry heap lies below that bound.
+func entryRooted(t *Term) bool {
+	switch t.Kind {
+	case kVar:
+		return strings.HasPrefix(t.Op, "p_") || (strings.HasSuffix(t.Op, "_0") && isHeapComp(t.Op))
+	case kApp:
+		switch {
+		case t.Op == "select":
+			return entryRooted(t.Args[0])
+		case t.Op == "store" || strings.HasPrefix(t.Op, "zerorow_"):
+			return false
+		case t.Op == "ite":
+			return entryRooted(t.Args[1]) && entryRooted(t.Args[2])
+		case t.Op == "sidx":
+			return true
+		}
+		for _, a := range t.Args {
+			if !entryRooted(a) {
+				return false
+			}
+		}
+		return true
+	}
+	return true // literals
+}
+
+func hasRefs(t types.Type, depth int) bool {
+	if t == nil {
+		return true
+	}
+	switch u := types.Unalias(t).Underlying().(type) {
+	case *types.Basic:
+		return false
+	case *types.Struct:
+		if depth > 6 {
+			return true
+		}
+		for i := 0; i < u.NumFields(); i++ {
+			if hasRefs(u.Field(i).Type(), depth+1) {
+				return true
+			}
+		}
+		return false
+	}
+	return true
+}
+
+// specFrame: the frame rule for heap-reading uninterpreted (recursive / opaque / abstract) spec functions.
+// If every reference-carrying argument is an entry value and every heap component the function reads agrees with the entry heap
+// on all objects that existed at entry, the application equals the same application over the entry heap: by induction on the
+// evaluation, every object it reads is reachable from the arguments in the entry heap and hence older than the entry bound.
+func (x *Exec) specFrame(env *Env, si *specInfo, args []SV, ats []*Term, app *Term) {
+	if len(si.comps) == 0 || x.vc == nil || x.vc.entry == nil || env.reads != nil {
+		return
+	}
+	n := len(args)
+	var ante []*Term
+	ats0 := append([]*Term{}, ats[:n]...)
+	differs := false
+	for i, c := range si.comps {
+		e := x.heapGet(x.vc.entry, c, si.compSorts[i])
+		ats0 = append(ats0, e)
+		if e.String() != ats[n+i].String() {
+			differs = true
+			a := Var("fa", SInt)
+			ante = append(ante, Forall([]*Term{a}, Implies(And(Cmp("<=", IntLit(0), a), Cmp("<", a, x.vc.allocBase)),
+				Eq(Select(ats[n+i], a), Select(e, a))), []*Term{Select(ats[n+i], a)}))
+		}
+	}
+	if !differs {
+		return
+	}
+	for i, a := range args {
+		typ := si.paramT[i]
+		if typ == nil {
+			typ = a.Typ
+		}
+		if si.paramS[i] == SReal || si.paramS[i] == SBool || si.paramS[i] == SStr {
+			continue
+		}
+		if typ != nil && !hasRefs(typ, 0) {
+			continue
+		}
+		if !entryRooted(a.T) {
+			return
+		}
+	}
+	inst := Implies(And(ante...), Eq(app, App(si.sym, si.retS, ats0...)))
+	var bvs []*Term
+	txt := inst.String()
+	for _, b := range env.bound {
+		if strings.Contains(txt, b.Op) {
+			bvs = append(bvs, b)
+		}
+	}
+	if len(bvs) > 0 {
+		inst = Forall(bvs, inst, []*Term{app})
+	}
+	env.side = append(env.side, inst)
+}
+
+
+// closureAxiom: a function value without captured variables whose contract says it never panics and needs nothing is a total
+// function of its arguments; if its postconditions read no heap (pointer parameters only through their own fields), they
+// characterise app(f, args) for all arguments.  The contract itself is verified where the function is.
+func (x *Exec) closureAxiom(fn *ssa.Function, sym string) {
+	if len(x.U.axioms[sym]) > 0 || x.vc == nil || x.vc.entry == nil {
+		return
+	}
+	spec := x.DB.Funcs[funcKey(fn)]
+	if spec == nil || !spec.NoPanic || len(spec.Requires) > 0 || len(spec.Ensures) == 0 || spec.Trusted || fn.Signature.Results().Len() != 1 {
+		return
+	}
+	if len(x.info(fn).loops) > 0 || len(fn.FreeVars) > 0 {
+		return
+	}
+	defer func() {
+		if r := recover(); r != nil {
+			x.note("no application axiom for %s: %v", shortFuncName(fn), r)
+		}
+	}()
+	rs := x.TI.SortOf(fn.Signature.Results().At(0).Type())
+	fname := "app_" + mangleSort(rs)
+	fv := App(sym, SInt)
+	ats := []*Term{fv}
+	asorts := []Sort{SInt}
+	env := &Env{x: x, st: x.vc.entry, old: x.vc.entry, vars: map[string]SV{}, pkg: fn.Package(), allocOld: x.vc.allocBase, touched: map[string]Sort{}}
+	var bvs []*Term
+	for i, p := range fn.Params {
+		pt := p.Type()
+		if pp, ok := types.Unalias(pt).Underlying().(*types.Pointer); ok {
+			pt = pp.Elem()
+		}
+		srt := x.TI.SortOf(pt)
+		b := Var(fmt.Sprintf("cx%d_%s", i, sanitize(p.Name())), srt)
+		bvs = append(bvs, b)
+		ats = append(ats, b)
+		asorts = append(asorts, srt)
+		fname += "_" + mangleSort(srt)
+		env.vars[p.Name()] = SV{T: b, Typ: pt, Pointee: pt != p.Type()}
+	}
+	env.bound = append(env.bound, bvs...)
+	x.U.Declare(fname, rs, asorts...)
+	app := App(fname, rs, ats...)
+	env.vars["result"] = SV{T: app, Typ: fn.Signature.Results().At(0).Type()}
+	var body []*Term
+	for _, c := range spec.Ensures {
+		body = append(body, x.evalBool(env, c.E))
+	}
+	if len(env.touched) > 0 {
+		x.note("no application axiom for %s: its postconditions read the heap", shortFuncName(fn))
+		return
+	}
+	for _, sd := range env.takeSide() {
+		x.U.AddAxiom(sym, sd)
+	}
+	x.U.AddAxiom(sym, Forall(bvs, And(body...), []*Term{app}))
 }
